@@ -573,6 +573,43 @@ def w2_comparisons_and_positions(ctx: Ctx):
               'a nested pattern extends the position of its parent', 'changed')
 
 
+def w5_bundled_state(ctx: Ctx):
+    """FPCore has no assignment, so before emission the variables a loop or a branch changes are packed into one tuple,
+    carried through, and unpacked afterwards (the bundling passes).  A tuple has no field names: what says that field i
+    packed in an arm is the variable unpacked at position i is only that both sides list the variables *in the same
+    order*.  In every method of the three bundling passes, each order a tuple is packed in is one a binding unpacks in,
+    and conversely (an order given by a name is read through the name's single assignment)."""
+    n = 0
+    for rel, cls in (('fpy2/transform/if_bundling.py', '_IfBundlingInstance'), ('fpy2/transform/for_bundling.py', '_ForBundlingInstance'), ('fpy2/transform/while_bundling.py', '_WhileBundlingInstance')):
+        if not ctx.repo.has_cls(rel, cls):
+            raise ShapeError(f'{cls} not found in {rel}')
+        for name, (_, _, fn) in ctx.repo.methods(rel, cls, inherited=False).items():
+            once: dict[str, ast.AST] = {}
+            counts: dict[str, int] = {}
+            for s in ast.walk(fn):
+                if isinstance(s, ast.Assign) and len(s.targets) == 1 and isinstance(s.targets[0], ast.Name):
+                    counts[s.targets[0].id] = counts.get(s.targets[0].id, 0) + 1
+                    once[s.targets[0].id] = s.value
+
+            def order_of(arg: ast.AST) -> str:
+                e = arg.generators[0].iter if isinstance(arg, ast.ListComp) and len(arg.generators) == 1 else arg
+                if isinstance(e, ast.Name) and counts.get(e.id) == 1:
+                    e = once[e.id]
+                return norm(e)
+            packs = {order_of(k.args[0]): k for k in calls_in(fn) if call_name(k) == 'TupleExpr' and k.args}
+            unpacks = {order_of(k.args[0]): k for k in calls_in(fn) if call_name(k) == 'TupleBinding' and k.args}
+            if not packs or not unpacks:
+                continue
+            n += 1
+            for o, k in unpacks.items():
+                ctx.check(o in packs, rel, k, f'{cls}.{name}', f'unpacked in the order `{o}`, which is an order the tuple is packed in',
+                          f'packed in {sorted(packs)}: the fields come out under other names -- `x` mutated and `c` introduced by an if/else are swapped after it, x / c becomes c / x')
+            for o, k in packs.items():
+                ctx.check(o in unpacks, rel, k, f'{cls}.{name}', f'packed in the order `{o}`, which is an order a binding unpacks in', f'unpacked in {sorted(unpacks)}')
+    if n < 3:
+        raise ShapeError(f'only {n} bundling methods with packed state found')
+
+
 def w4_ranges(ctx: Ctx):
     """`range` is lowered to a tensor: an element count and a formula for element i.  The three lowerings are built, from
     their source, over symbolic operands, and the resulting FPCore terms are evaluated with the annotation semantics of
@@ -803,6 +840,7 @@ def r3_loop_condition(ctx: Ctx):
 
 
 RULES = [
+    Rule('C12.W5', 'bundling: the variables a branch or loop changes are packed and unpacked in one order', w5_bundled_state, 3, 'F'),
     Rule('C12.W4', 'writer: the tensor a range lowers to lists the integers of the range (count and element formula, evaluated under the annotation semantics)', w4_ranges, 3, 'T'),
     Rule('C12.W3', 'writer: a comprehension over several iterables lists its elements outermost-first, reads its own iteration variable and binds the targets', w3_nested_comprehensions, 4, 'T,F'),
     Rule('C12.R4', 'reader: annotation values written by the compiler (plain strings) are read as they are', r4_property_values, 1, 'F'),
@@ -820,6 +858,9 @@ RULES = [
 from ..selftest import Mutant  # noqa: E402
 
 MUTANTS = [
+    Mutant('if-state-unpacked-in-sorted-order', 'fpy2/transform/if_bundling.py', "            s = Assign(TupleBinding(mutated + intros, None), None, Var(t, None), None)", "            s = Assign(TupleBinding(sorted(mutated + intros), None), None, Var(t, None), None)", 'C12.W5',
+           'seeded change C12e: a mutated x and an introduced c come out swapped after the if'),
+    Mutant('loop-state-unpacked-reversed', 'fpy2/transform/while_bundling.py', "            s = Assign(TupleBinding(mutated, None), None, Var(t, None), None)", "            s = Assign(TupleBinding(mutated[::-1], None), None, Var(t, None), None)", 'C12.W5'),
     Mutant('lone-round-property-dropped', FRONT, "        if any(k in props for k in ('precision', 'round', 'overflow')):", "        if 'precision' in props:", 'C12.R1',
            'finding F99 before its repair: (FPCore (x y) :round toPositive (/ x y)) read back rounding to nearest'),
     Mutant('range-count-quotient-rounded-to-an-integer', BACK, "                fpc.Ceil(fpc.Ctx({ 'precision': 'real' }, fpc.Div(fpc.Sub(stop_expr, start_expr), step_expr)))))],",
